@@ -361,16 +361,11 @@ package http1
 // cancel itself looks, under the waiter's lock, whether a connection was delivered meanwhile and puts it back; a
 // clean-up that first asks waiting() skips exactly the waiter that timed out while a connection was handed to it,
 // and that connection is neither idle nor closed nor un-counted.
-//@ ghost var acCancelled bool
 //@ func HostClient.acquireConn$1()
 //@   props C10
 //@   abstract
 //@   noinline
-//@   modifies acCancelled
 //@   forbid waiting
-//@   ghostset-at-entry acCancelled = false
-//@   ghostset after cancel: acCancelled = true
-//@   assert before cancel: !acCancelled
 
 //@ ghost var dcDelivered bool
 //@ ghost var dcReleased bool
